@@ -5,7 +5,10 @@ formula "unit u is a row of this frame" over per-unit atoms, and decides claims 
 
 Formula: ('t',) ('f',) ('var', name) ('rel', key, frozenset(of 'lt','eq','gt')) ('not', x) ('and', xs) ('or', xs) ('ite', c, a, b)
 Variables: booleans by name; relations key -> one of lt / eq / gt  (a comparison `col op rhs` is exact on this domain, so
-`>=` and `<` are recognised as complementary while `>` and `<` leave the equality case uncovered).
+`>=` and `<` are recognised as complementary on values that are present while `>` and `<` leave the equality case uncovered).
+A column value can also be MISSING: one boolean `na:<column>` per compared column; every comparison except `!=` is False on such
+a row (see `compare`), so `>=` and `<` together do NOT cover it whereas `>=` and `~(>=)` do; `.isna()` / `.notna()` read the
+same boolean.
 """
 from __future__ import annotations
 
@@ -179,13 +182,25 @@ OPS = {"<": {"lt"}, "<=": {"lt", "eq"}, ">": {"gt"}, ">=": {"gt", "eq"}, "==": {
 FLIP = {"<": ">", ">": "<", "<=": ">=", ">=": "<=", "==": "==", "!=": "!="}
 
 
+def compare(col, rhs, vals, ne=False, never_missing=()):
+    """formula of `col <op> rhs` where `vals` is the set of lt/eq/gt on which it is true: false on a missing value, except
+    for `!=` (ne=True), which pandas/numpy evaluate to True when the value is missing. Columns in `never_missing` (the
+    caller established that from the code) have no missing case."""
+    base = ("rel", ("rel", col, rhs), frozenset(vals))
+    if col in never_missing:
+        return base
+    na = ("var", f"na:{col}")
+    return Or(na, base) if ne else And(Not(na), base)
+
+
 class RowSets:
     """member(frame_term) -> formula. `sources` maps base frame terms to variable names, e.g.
     {('attr', self, 'data'): 'inData', ('attr', self, 'current_data'): 'inFeed'}.
     `opaque(call_term)` may return (frame_arg_term, atom_name) for calls that return a row subset of an argument."""
 
-    def __init__(self, sources, opaque=None):
+    def __init__(self, sources, opaque=None, never_missing=()):
         self.sources = sources
+        self.never_missing = frozenset(never_missing)
         self.opaque = opaque or (lambda t: None)
         self.memo = {}
         self.atoms = {}  # atom name -> description
@@ -321,7 +336,20 @@ class RowSets:
             self._same_rows_source(lc[0], frame)
             key = ("rel", lc[1], ir.show(r, maxdepth=4))
             self.atoms[key] = f"{lc[1]} vs {ir.show(r, maxdepth=4)}"
-            return ("rel", key, frozenset(OPS[op]))
+            if lc[1] not in self.never_missing:
+                self.atoms[f"na:{lc[1]}"] = f"{lc[1]} is missing"
+            return compare(lc[1], key[2], OPS[op], ne=(op == "!="), never_missing=self.never_missing)
+        if k == "call" and ((m[1][0] == "attr" and m[1][2] in ("isna", "isnull", "notna", "notnull") and not m[2])
+                            or (m[1][0] == "global" and m[1][1].rsplit(".", 1)[-1] in ("isna", "isnull", "isnan", "notna", "notnull") and len(m[2]) == 1)):
+            lc = self.col_of(m[1][1] if m[1][0] == "attr" else m[2][0])
+            if lc is None:
+                raise AnalysisError(f"missing-value test is not on a column: {ir.show(m, maxdepth=3)}")
+            fn = m[1][2] if m[1][0] == "attr" else m[1][1].rsplit(".", 1)[-1]
+            if lc[1] in self.never_missing:
+                return T if fn.startswith("not") else F
+            self.atoms[f"na:{lc[1]}"] = f"{lc[1]} is missing"
+            na = ("var", f"na:{lc[1]}")
+            return Not(na) if fn.startswith("not") else na
         if k == "call" and m[1][0] == "global" and m[1][1].endswith("isclose"):
             lc = self.col_of(m[2][0])
             if lc is None:
@@ -355,7 +383,9 @@ class RowSets:
             for bound, ops in ((m[2][0], lo_ops), (m[2][1], hi_ops)):
                 key = ("rel", lc[1], ir.show(bound, maxdepth=4))
                 self.atoms[key] = f"{lc[1]} vs {ir.show(bound, maxdepth=4)}"
-                out.append(("rel", key, frozenset(ops)))
+                if lc[1] not in self.never_missing:
+                    self.atoms[f"na:{lc[1]}"] = f"{lc[1]} is missing"
+                out.append(compare(lc[1], key[2], ops, never_missing=self.never_missing))
             return And(*out)
         if k == "call" and m[1][0] == "attr" and m[1][2] == "isin":
             lc = self.col_of(m[1][1])
